@@ -169,6 +169,13 @@ func schedScenarios() []schedScenario {
 		{"1recv-2send-same-topic", [][]boxCall{{recv(1, 0, 1), recv(1, 0, 2)}, {send(0)}, {send(0)}}, 0},
 		{"2topics", [][]boxCall{{recv(1, 0, 1), recv(1, 1, 2)}, {send(0)}, {send(1)}}, 0},
 		{"3recv-1send", [][]boxCall{{recv(1, 0, 1)}, {recv(2, 0, 2)}, {recv(3, 0, 3)}, {send(0)}}, 0},
+		// a history rather than a race: one sender, one topic in flight at any time (the limit is 3), six topics one after
+		// the other, each with an early message, the first send and a late message — accounting that is not released when
+		// a topic starts would throttle the sender from the fifth topic on
+		{"sequential-topics", [][]boxCall{{recv(1, 0, 1), send(0), recv(1, 0, 2), recv(1, 1, 3), send(1), recv(1, 1, 4), recv(1, 2, 5), send(2), recv(1, 2, 6),
+			recv(1, 3, 7), send(3), recv(1, 3, 8), recv(1, 4, 9), send(4), recv(1, 4, 10), recv(1, 5, 11), send(5), recv(1, 5, 12)}}, 0},
+		{"sequential-topics/2", [][]boxCall{{recv(1, 0, 1), send(0), recv(1, 1, 3), send(1), recv(1, 2, 5), send(2), recv(1, 3, 7), send(3), recv(1, 4, 9), send(4), recv(1, 5, 11), send(5)},
+			{recv(2, 0, 21), recv(2, 5, 22)}}, 0},
 		// a garbage collection is due at the first Send (4 epochs have passed); the clock ticks and a message arrives /
 		// a topic starts while that collection is under way; nothing is old enough to expire, so nothing may be lost
 		{"gc-window/arrival", [][]boxCall{{send(1)}, {tick()}, {recv(1, 0, 1), send(0)}}, 4},
@@ -248,9 +255,12 @@ func checkSchedOutcome(s *out.Sink, sc schedScenario, sr *schedRun, schedule []i
 }
 
 func runBoxSched(r *prng.R, s *out.Sink, tier string) {
-	limit := 4000
+	// per scenario: depth-first enumeration of all schedules up to `limit`; a scenario with more schedules than that is
+	// not exhausted by a depth-first prefix (which only varies the end of the schedule), so `extra` uniformly random
+	// schedules follow
+	limit, extra := 4000, 1500
 	if tier == "thorough" {
-		limit = 400000
+		limit, extra = 150000, 60000
 	}
 	total := 0
 	for _, sc := range schedScenarios() {
@@ -298,6 +308,27 @@ func runBoxSched(r *prng.R, s *out.Sink, tier string) {
 			if count >= limit {
 				exhaustive = false
 				break
+			}
+		}
+		if !exhaustive {
+			for k := 0; k < extra; k++ {
+				sr, ok := executeSchedTicks(sc.scripts, 3, sc.preTicks, func(step int, runnable []int) int { return r.Intn(len(runnable)) })
+				var schedule []int
+				for _, sg := range sr.segments {
+					var t int
+					fmt.Sscanf(sg, "%d|", &t)
+					schedule = append(schedule, t)
+				}
+				count++
+				s.Count("schedules-random/" + sc.name)
+				s.Distinct[fmt.Sprintf("%s %v", sc.name, schedule)] = struct{}{}
+				if !ok {
+					s.Violate("C14", "a goroutine blocked or the run did not terminate under the controlled scheduler", fmt.Sprintf("scenario=%s schedule=%v", sc.name, schedule))
+				}
+				checkSchedOutcome(s, sc, sr, schedule)
+				if sc.preTicks == 0 && k%97 == 1 {
+					emitSchedOps(s, sc, sr)
+				}
 			}
 		}
 		s.Extra["schedules/"+sc.name] = count
